@@ -49,6 +49,7 @@ func main() {
 		{"CliGen.v", genCli},
 		{"RingHelpersGen.v", genRingHelpers},
 		{"QuadTreeGen.v", genQuadTree},
+		{"GpkgWriterGen.v", genGpkgWriter},
 	}
 	failed := false
 	for _, g := range gens {
